@@ -166,6 +166,13 @@ class AwesomeyamlDumper(yaml.Dumper):
         finally:
             self._unquoted = old
 
+    def ignore_aliases(self, data):
+        # a node is one object wherever it has been put (e.g. by a yaml alias): pyyaml never writes anchors for
+        # (subclasses of) str, int, float..., as which scalar-like nodes would be taken
+        if isinstance(data, ConfigNode):
+            return False
+        return super().ignore_aliases(data)
+
     def represent_scalar(self, tag, value, style=None):
         ret = super().represent_scalar(tag, value, style)
         if self._unquoted:
